@@ -177,7 +177,7 @@ def next_can_start_expression(text, line_no):
     return False
 
 
-KINDS = ["unknown-instruction", "undefined-symbol", "out-of-range", "duplicate-label", "malformed-directive"]
+KINDS = ["unknown-instruction", "undefined-symbol", "out-of-range", "duplicate-label", "malformed-directive", "invalid-field"]
 
 
 def inject(rng, prog, body_lines, kind, pos):
@@ -192,6 +192,22 @@ def inject(rng, prog, body_lines, kind, pos):
         # a duplicate global label placed right after local labels would re-parent nothing it matters for
         lines.insert(pos, l)
         return lines, pos
+    if kind == "invalid-field":
+        # a misspelled field inside a multi-line `#bankdef { }` body, never in first position
+        blocks = []
+        for i, l in enumerate(lines):
+            if l.startswith("#bankdef") and i + 1 < len(lines) and lines[i + 1].strip() == "{":
+                j = i + 2
+                while j < len(lines) and lines[j].strip() != "}":
+                    j += 1
+                if j < len(lines) and j - (i + 2) >= 1:
+                    blocks.append((i + 2, j))
+        if not blocks:
+            return None
+        a, b = rng.choice(blocks)
+        at = rng.randint(a + 1, b)
+        lines.insert(at, "    " + rng.choice(["#sise 4", "#adr 0x10", "#fil", "#output 0", "#labelalgin 8", "#bit 8"]))
+        return lines, at
     fl = fault_line(rng, kind, prog)
     lines.insert(pos, fl)
     return lines, pos
@@ -251,7 +267,7 @@ def fault_case(ctx, rng, worker):
     use_include = rng.random() < 0.4
     positions = points if len(points) <= 12 else sorted(rng.sample(points, 12))
     for kind in KINDS:
-        for pos in positions if kind != "duplicate-label" else positions[:2]:
+        for pos in positions if kind not in ("duplicate-label", "invalid-field") else positions[:2]:
             r = inject(rng, prog, body_lines, kind, pos)
             if r is None:
                 continue
